@@ -32,11 +32,13 @@ Record Inv2 (s : st) : Prop := mkInv2 {
   m_rcreated : forall r k, unreg s r = RLocal k -> mcreated s k = true;
   m_pcs : forall u k, pcs s u = CWait k \/ pcs s u = CHold k \/ pcs s u = GWait k \/ pcs s u = GHold k ->
                       mcreated s k = true;
-  m_insts_del : forall u k l todo, pcs s u = IInsts k l todo -> mdel s k = true }.
+  m_insts_del : forall u k l todo, pcs s u = IInsts k l todo -> mdel s k = true;
+  m_ifresh : forall i, ist s i <> INone -> pcs s i = Done;
+  m_alias : forall i j, ist s i = IAlias j -> exists k d, ist s j = IGlobal k d }.
 
 Ltac get_inv2 HJ :=
   pose proof (m_pdel _ HJ) as Hpd; pose proof (m_pend _ HJ) as Hpend; pose proof (m_inst _ HJ) as Hinst;
-  pose proof (m_icreated _ HJ) as Hic; pose proof (m_rcreated _ HJ) as Hrc; pose proof (m_pcs _ HJ) as Hmp; pose proof (m_insts_del _ HJ) as Hid.
+  pose proof (m_icreated _ HJ) as Hic; pose proof (m_rcreated _ HJ) as Hrc; pose proof (m_pcs _ HJ) as Hmp; pose proof (m_insts_del _ HJ) as Hid; pose proof (m_ifresh _ HJ) as Hif; pose proof (m_alias _ HJ) as Hal.
 
 (** The stepping thread is (or is not) the installer. *)
 Ltac ipc_contra :=
@@ -194,6 +196,37 @@ Proof.
             try (destruct X; fail)).
 Qed.
 
+Lemma step_ifresh prog s t s' : Inv1 s -> Inv2 s -> step false prog s t = Some s' ->
+  forall i, ist s' i <> INone -> pcs s' i = Done.
+Proof.
+  intros HI HJ Hs. get_inv HI. get_inv2 HJ. clear HI HJ.
+  inv_step Hs; simp_st; intros i' Hi'; upd_cases; try reflexivity; try (apply Hif; assumption);
+    try (apply Hif; intro X; apply Hi'; rewrite X; reflexivity);
+    try (exfalso; match goal with E : pcs _ ?x = _ |- _ => rewrite Hif in E by congruence; discriminate end);
+    try (exfalso; match goal with E : pcs _ ?x = _ |- _ =>
+           rewrite Hif in E by (intro X; apply Hi'; rewrite X; reflexivity); discriminate end).
+Qed.
+
+Lemma deleg_alias x j : deleg x = IAlias j -> x = IAlias j.
+Proof. destruct x; cbn; congruence. Qed.
+Lemma deleg_keeps_global x k d : x = IGlobal k d -> exists d', deleg x = IGlobal k d'.
+Proof. intros ->. cbn. eauto. Qed.
+
+Lemma step_alias prog s t s' : Inv1 s -> Inv2 s -> step false prog s t = Some s' ->
+  forall i j, ist s' i = IAlias j -> exists k d, ist s' j = IGlobal k d.
+Proof.
+  intros HI HJ Hs. get_inv HI. get_inv2 HJ. clear HI HJ.
+  inv_step Hs; simp_st; intros i' j' Hi'; upd_cases; try discriminate;
+    try (eapply Hal; eassumption);
+    try (apply deleg_alias in Hi'); 
+    try (destruct (Hal _ _ Hi') as [kk [dd X]]; first [rewrite X; cbn; eauto; fail | eauto]; fail);
+    try (inversion Hi'; subst; eauto; fail);
+    try (exfalso; destruct (Hal _ _ Hi') as [kk [dd X]];
+         match goal with E : pcs _ ?x = _ |- _ => rewrite Hif in E by congruence; discriminate end);
+    try (exfalso; inversion Hi'; subst;
+         match goal with E : pcs _ ?x = _ |- _ => rewrite Hif in E by congruence; discriminate end).
+Qed.
+
 Lemma step_inv2 prog s t s' : Inv1 s -> Inv2 s -> step false prog s t = Some s' -> Inv2 s'.
 Proof.
   intros HI HJ Hs. constructor.
@@ -204,6 +237,8 @@ Proof.
   - eapply step_rcreated; eassumption.
   - eapply step_mpcs; eassumption.
   - eapply step_insts_del; eassumption.
+  - eapply step_ifresh; eassumption.
+  - eapply step_alias; eassumption.
 Qed.
 
 Lemma init_inv2 : Inv2 init.
@@ -221,7 +256,10 @@ Proof.
   intros HJ Hd. assert (Hm : forall k, mcreated s k = true -> mdel s k = true).
   { intros k Hc. destruct (mdel s k) eqn:E; [reflexivity|].
     pose proof (m_pend _ HJ k Hc E) as X. unfold pending_meters in X. rewrite Hd in X. destruct X. }
-  split; [exact Hm|]. intro i. unfold forwards. destruct (ist s i) as [|k [|]|] eqn:E; auto.
-  exfalso. pose proof (m_inst _ HJ i k E) as X. unfold pending_insts in X.
-  rewrite (Hm k (m_icreated _ HJ i k false E)), Hd in X. destruct X.
+  assert (Hg : forall i k, ist s i <> IGlobal k false).
+  { intros i k E. pose proof (m_inst _ HJ i k E) as X. unfold pending_insts in X.
+    rewrite (Hm k (m_icreated _ HJ i k false E)), Hd in X. destruct X. }
+  split; [exact Hm|]. intro i. unfold forwards. destruct (ist s i) as [|k [|]| |j] eqn:E; auto.
+  - exfalso. exact (Hg i k E).
+  - destruct (m_alias _ HJ i j E) as [k [d X]]. rewrite X. destruct d; auto. exfalso. exact (Hg j k X).
 Qed.
